@@ -734,8 +734,9 @@ impl<'a, 'b> G<'a, 'b> {
         let unusual = self.k.unusual;
         let target = if unusual && self.c.chance(1, 12) {
             // readable but not assignable in a module: must be reported, not assigned to
-            self.f.unusual("vmodel-target-eval-or-arguments");
-            self.c.choose(&["eval", "arguments", "(eval)"])
+            // (`arguments` itself is illegal in class fields, where a site may be placed)
+            self.f.unusual("vmodel-target-eval");
+            self.c.choose(&["eval", "(eval)"])
         } else {
             self.c.choose(&["m", "o.p", "o[x]", "xs[0]", "o.a.b"])
         };
